@@ -149,6 +149,8 @@ func jTypeOf(s *jShape) reflect.Type {
 				// names of exactly 16 and 15 bytes (member names are looked up in 16-byte slots), differing in the last byte only
 				{Name: "F", Type: e, Tag: `json:"abcdefghijklmnop"`},
 				{Name: "G", Type: e, Tag: `json:"abcdefghijklmno,omitempty"`},
+				// a non-ASCII letter in front of an HTML character (and behind one)
+				{Name: "H", Type: e, Tag: `json:"caf\u00e9&th\u00e9<,omitempty"`},
 			})
 		default:
 			panic("unknown wrapper " + s.K)
